@@ -776,6 +776,11 @@ def r_copyto(d):
 
 
 # ------------------------------------------------------------------- C10/C11/C12: directory handler scenarios
+def glob_cache(top, cachefile):
+    import glob
+    return sorted(glob.glob(os.path.join(top, os.path.basename(cachefile) + "*")))
+
+
 @realiser("pygopherd/handlers/dir.py::DirHandler.")
 def r_dir(d):
     """Scenario replay on a scratch directory with the real DirHandler/UMNDirHandler: every prefix of a real
@@ -824,6 +829,35 @@ def r_dir(d):
                         return {"confirmed": True, "scenario": "cache file cut to %d of %d bytes" % (n, len(good)), "handler": cls.__name__, "raised": repr(e)}
                     if names != ["/a.txt", "/b.txt", "/c.txt"]:
                         return {"confirmed": True, "scenario": "cache file cut to %d bytes" % n, "listing": names}
+            # C11: with a history (an earlier generation of the cache, a directory that changed since) a damaged cache still
+            # means "regenerate", never "something older"
+            for f_ in glob_cache(top, cachefile):
+                os.unlink(f_)
+            h = mk(); h.prepare(); h.getdirlist()
+            for f_ in glob_cache(top, cachefile):
+                old_ = time.time() - 10000
+                os.utime(f_, (old_, old_))
+            open(os.path.join(top, "d.txt"), "w").write("d")
+            os.unlink(os.path.join(top, "a.txt"))
+            try:
+                h = mk(); h.prepare(); h.getdirlist()
+                good2 = open(cachefile, "rb").read() if os.path.exists(cachefile) else b""
+                for n in (0, 1, len(good2) // 3, len(good2) // 2, max(len(good2) - 1, 0), -1):
+                    open(cachefile, "wb").write(good2[:n] if n >= 0 else b"\0" * len(good2))
+                    for cls in (DirHandler, UMNDirHandler):
+                        h = mk(cls)
+                        try:
+                            h.prepare()
+                            names = sorted(e.selector for e in h.getdirlist())
+                        except Exception as e:  # noqa
+                            return {"confirmed": True, "scenario": "second-generation cache cut to %d bytes" % n, "handler": cls.__name__, "raised": repr(e)}
+                        if names != ["/b.txt", "/c.txt", "/d.txt"]:
+                            return {"confirmed": True, "scenario": "the cache (second generation, the directory changed since the first) cut to %d bytes: the listing is not the current directory" % n, "listing": names}
+            finally:
+                open(os.path.join(top, "a.txt"), "w").write("a.txt")
+                os.unlink(os.path.join(top, "d.txt"))
+                for f_ in glob_cache(top, cachefile):
+                    os.unlink(f_)
             # C10: a stale cache is never used
             open(cachefile, "wb").write(pickle.dumps([], 1))
             old = time.time() - 10000
@@ -1472,7 +1506,7 @@ def r_zip(d):
         files = {"a.txt": b"alpha\n", "dir/b.txt": b"beta\n", "dir/sub/c.txt": b"gamma\n", ".hidden": b"h\n", "dir/b.txt.abstract": b"About b\n",
                  "dir/.Links": b"Name=Mirror\nType=1\nPath=/elsewhere\nHost=h.example\nPort=70\n", "gm/gophermap": b"Welcome\n0Doc\tdoc.txt\n1Up\t/\n", "gm/doc.txt": b"doc\n",
                  "naïve.txt": b"utf8 name\n", "empty/": b"", "page.html": b"<html><head><title>T &amp; U</title></head><body>x</body></html>",
-                 "deep/er/still/x.bin": bytes(range(256)), "café/mü.txt": b"nested utf8\n",
+                 "deep/er/still/x.bin": bytes(range(256)), "café/mü.txt": b"nested utf8\n", "downloads/tools.zip": b"PK-looking member, served as a document\n",
                  "downloads/notes.zip.txt": b"not an archive\n", "backup-2020.zip/inside.txt": b"a folder whose name looks like an archive\n",
                  "bom/.names": b"\xef\xbb\xbfName=Quarterly report\nPath=./report.txt\n", "bom/report.txt": b"r\n", "bom/report.txt.abstract": b"\xef\xbb\xbfAbstract with a byte order mark\n"}
         links = {"ln_rel": "a.txt", "dir/ln_up": "../a.txt", "ln_abs": "/dir/b.txt", "ln_dangling": "nowhere.txt", "ln_a": "ln_b", "ln_b": "ln_a",
@@ -1511,7 +1545,7 @@ def r_zip(d):
                 "/a.txt/below", "/empty", "/page.html", "/naïve.txt", "/café", "/café/mü.txt", "/deep", "/deep/er/still/x.bin", "/ln_rel", "/dir/ln_up",
                 "/ln_abs", "/ln_dangling", "/ln_a", "/ln_dir", "/ln_dir/b.txt", "/dir/sub/ln_upup", "/dir/.Links", "/gm/gophermap", "/dir/b.txt.abstract",
                 "/dir/ln_clamp", "/dir/sub/ln_clamp2", "/A.TXT", "/Dir", "/DIR/b.txt", "/dir/B.TXT", "/Gm/doc.txt",
-                "/downloads", "/downloads/notes.zip.txt", "/backup-2020.zip", "/backup-2020.zip/inside.txt", "/bom", "/bom/report.txt"]
+                "/downloads", "/downloads/notes.zip.txt", "/downloads/tools.zip", "/backup-2020.zip", "/backup-2020.zip/inside.txt", "/bom", "/bom/report.txt"]
         enc = lambda s: s.encode("utf-8", "surrogateescape")
         reqs = [("gopher", lambda s: enc(s) + b"\r\n"), ("gopher+ $", lambda s: enc(s) + b"\t$\r\n"), ("gopher+ !", lambda s: enc(s) + b"\t!\r\n"),
                 ("http", lambda s: b"GET " + enc(s or "/") + b" HTTP/1.0\r\n\r\n")]
@@ -1547,6 +1581,27 @@ def r_zip(d):
                 b, _l = serve(mk("/T.zip/" + s))
                 if b"OUTSIDE THE ARCHIVE" in b:
                     return {"confirmed": True, "scenario": "symbolic link member %r -> %r resolved to a file outside the archive" % (s, escaping[s])}
+        # an archive replaced between two requests: the second answer is about the new archive
+        import time as _t
+        rel = os.path.join(top, "rel.zip")
+        with zipfile.ZipFile(rel, "w") as z:
+            z.writestr("old.c", b"release 1\n")
+            z.writestr("common.txt", b"one\n")
+        a1, _l = serve(b"/rel.zip\r\n")
+        tmpz = os.path.join(top, "rel.zip.new")
+        with zipfile.ZipFile(tmpz, "w") as z:
+            z.writestr("new.c", b"release 2\n")
+            z.writestr("common.txt", b"two, longer\n")
+            z.writestr("doc/readme", b"r\n")
+        later = _t.time() + 3600
+        os.utime(tmpz, (later, later))
+        os.replace(tmpz, rel)
+        a2, _l = serve(b"/rel.zip\r\n")
+        c2, _l = serve(b"/rel.zip/common.txt\r\n")
+        o2, _l = serve(b"/rel.zip/old.c\r\n")
+        if b"new.c" not in a2 or b"old.c" in a2 or c2 != b"two, longer\n" or not o2.startswith(b"3"):
+            return {"confirmed": True, "scenario": "rel.zip was replaced by a newer archive between two requests: the answers still describe the old one",
+                    "listing": repr(a2[:200]), "common.txt": repr(c2[:40]), "old.c": repr(o2[:60])}
         return {"confirmed": None, "note": "real-file scenarios passed; %d archive/extracted comparisons agree" % n}
     finally:
         os.chdir(old_cwd)
@@ -1918,7 +1973,7 @@ def r_sidecars(d):
         cfg.set("pygopherd", "root", top)
         hb.rootpath = None; hm.rootpath = None; hm.handlers = None
         gopherentry.eaexts = None
-        texts = {"report.keywords": "".join("line %04d of a long keyword file, padded to seventy-four characters ...........\n" % i for i in range(400)),
+        texts = {"report.keywords": "".join("line %04d of a long keyword file, padded so that 20480 is no multiple .....\n" % i for i in range(400)),
                  "plain.txt.3d": "x" * 70 + " filler words +ADMIN: Admin: Mallory <m@evil.example> and more filler text so that the line is long enough to be folded twice +ABSTRACT: injected\n",
                  "notes.txt.abstract": "First paragraph.\n\nSecond paragraph   \n  indented\n\n\nlast", "notes.txt.keywords": "k1\n\nk2\n",
                  "report.abstract": "Abstract of the extensionless report\n", "sub/.abstract": "Directory abstract\n\nwith a blank line\n"}
@@ -2062,7 +2117,8 @@ def r_real_sockets(d):
         ctx.load_cert_chain(os.path.join(repo, "testdata", "demo.crt"), os.path.join(repo, "testdata", "demo.key"))
         server = ThreadingTCPServer(cfg, ("127.0.0.1", 0), GopherRequestHandler, context=ctx)
         server.daemon_threads = True
-        server.handle_error = lambda request, client_address: None
+        escaped = []
+        server.handle_error = lambda request, client_address: escaped.append(repr(sys.exc_info()[1]))
         threading.Thread(target=server.serve_forever, daemon=True).start()
         addr = server.server_address[:2]
 
@@ -2106,6 +2162,23 @@ def r_real_sockets(d):
                 if got != content:
                     return {"confirmed": True, "scenario": "%s fetched through %s on a real socket is not the file's bytes" % (n, label),
                             "expected bytes": len(content), "received": (len(got) if got is not None else None), "response head": repr(resp[:120])}
+        # a client that resets the connection in the middle of a large document: nothing may leave the connection handler
+        import struct, time as _t2
+        open(os.path.join(top, "huge.bin"), "wb").write(b"\x5a" * (8 << 20))
+        for req in (b"/huge.bin\r\n", b"GET /huge.bin HTTP/1.0\r\n\r\n"):
+            c = socket.create_connection(addr, timeout=20)
+            c.setsockopt(socket.SOL_SOCKET, socket.SO_RCVBUF, 4096)
+            c.sendall(req)
+            c.recv(2000)
+            c.setsockopt(socket.SOL_SOCKET, socket.SO_LINGER, struct.pack("ii", 1, 0))
+            c.close()
+            for _k in range(40):
+                _t2.sleep(0.05)
+                if escaped:
+                    break
+        _t2.sleep(0.3)
+        if escaped:
+            return {"confirmed": True, "scenario": "the client reset the connection while a large document was being sent: an exception left the connection handler and reached the server's handle_error", "escaped": escaped[:2]}
         return {"confirmed": None, "note": "real-socket fetches agree with the files"}
     except Exception as e:  # noqa: harness trouble is not a verdict
         import traceback
@@ -2197,6 +2270,46 @@ def r_wap(d):
             head, sep, body = out.partition(b"\r\n")
             if head.startswith(b"+") and head[1:].lstrip(b"-").isdigit() and int(head[1:]) >= 0 and int(head[1:]) != len(body):
                 return {"confirmed": True, "scenario": "report.bin rewritten with %d bytes between two Gopher+ requests: the header says %s but %d body bytes follow" % (size, head.decode(), len(body))}
+        # decompressed documents: a length is announced only if it is the length of what is sent (multi-member gzip files included)
+        import gzip as _gz, shutil as _shz
+        if _shz.which("zcat"):
+            from pygopherd import testutil as _tu3
+            from pygopherd.protocols import ProtocolMultiplexer as _pm
+            a_, b_ = b"first member " * 300, b"second member, different length " * 500
+            docs = {"single.txt.gz": (_gz.compress(a_), a_), "multi.txt.gz": (_gz.compress(a_) + _gz.compress(b_), a_ + b_), "multi2.txt.gz": (_gz.compress(b_) + _gz.compress(b""), b_)}
+            for n, (raw, plain) in docs.items():
+                open(os.path.join(top, n), "wb").write(raw)
+            cfg2 = _config({})
+            cfg2.set("pygopherd", "root", top)
+            cfg2.set("handlers.HandlerMultiplexer", "handlers", "[file.CompressedFileHandler, UMN.UMNDirHandler, file.FileHandler]")
+            cfg2.set("handlers.file.CompressedFileHandler", "decompressors", "{'gzip' : 'zcat'}")
+            hb.rootpath = None; hm.rootpath = None; hm.handlers = None
+            from pygopherd import initialization as _in3, logger as _lg3
+            _lg3.log = lambda m: None
+            _in3.init_mimetypes(cfg2)
+            server = _tu3.get_testing_server(cfg2)
+            for n, (raw, plain) in docs.items():
+                outp = os.path.join(top, "out.bin")
+                rfile = io.BytesIO(b"/" + n.encode() + b"\t+\r\n")
+                wfile = open(outp, "wb", buffering=0)
+                try:
+                    rq = _tu3.MockRequest(rfile, wfile)
+                    rh = _tu3.MockRequestHandler(rq, ("10.77.77.77", "7777"), server)
+                    line = rfile.readline().decode(errors="surrogateescape")
+                    proto = _pm.getProtocol(line, server, rh, rfile, wfile, cfg2)
+                    proto.handle()
+                finally:
+                    if not wfile.closed:
+                        wfile.close()
+                out = open(outp, "rb").read()
+                head, sep, body = out.partition(b"\r\n")
+                if type(proto.handler).__name__ != "CompressedFileHandler":
+                    break  # the decompressing handler is not in use on this tree / platform: nothing to check
+                if body != plain:
+                    return {"confirmed": True, "scenario": "%s through the decompressing handler: %d body bytes, the decompressed document has %d" % (n, len(body), len(plain))}
+                if head.startswith(b"+") and head[1:].isdigit() and int(head[1:]) != len(body):
+                    return {"confirmed": True, "scenario": "%s through the decompressing handler: Gopher+ announces %s but %d body bytes follow" % (n, head.decode(), len(body))}
+            hb.rootpath = None; hm.rootpath = None; hm.handlers = None
         return {"confirmed": None, "note": "WML conversion agrees with the line-by-line reference"}
     finally:
         shutil.rmtree(top, ignore_errors=True)
@@ -2386,6 +2499,8 @@ def r_links(d):
     top = tempfile.mkdtemp(prefix="pyvc-links-", dir="/var/tmp")
     try:
         open(os.path.join(top, "local.txt"), "w").write("x")
+        open(os.path.join(top, "release%20notes.txt"), "w").write("a name with a literal percent-twenty\n")
+        open(os.path.join(top, "50%25 off.txt"), "w").write("a name with a literal percent-25 and a blank\n")
         open(os.path.join(top, ".abstract"), "w").write("Directory header line one\nline two\n")
         open(os.path.join(top, "local.txt.abstract"), "w").write("About the local file\n")
         open(os.path.join(top, ".Links"), "w").write(
@@ -2434,6 +2549,28 @@ def r_links(d):
             out, _l = _serve(rq, cfg, tls=tls)
             seen[proto] = {k: canon(proto, v, "64777") for k, v in targets(proto, out).items()}
         ref = seen["gopher"]
+        # every protocol's link to a local file, followed in that protocol, delivers the file (names with literal %XX included)
+        for fname in ("local.txt", "release%20notes.txt", "50%25 off.txt"):
+            content = open(os.path.join(top, fname), "rb").read()
+            for proto in ("http", "gemini", "spartan"):
+                raw = None
+                out, _l = _serve(reqs[proto][0], cfg, tls=reqs[proto][1])
+                for k_, v_ in targets(proto, out).items():
+                    if k_ == fname:
+                        raw = v_
+                if raw is None or not raw.startswith("/"):
+                    return {"confirmed": True, "scenario": "the local file %r is not advertised as a local link in the %s listing" % (fname, proto), "target": raw}
+                if proto == "http":
+                    body, _l = _serve(b"GET " + raw.encode() + b" HTTP/1.0\r\n\r\n", cfg)
+                    body = body.partition(b"\r\n\r\n")[2]
+                elif proto == "gemini":
+                    body, _l = _serve(b"gemini://localhost" + raw.encode() + b"\r\n", cfg, tls=True)
+                    body = body.partition(b"\r\n")[2]
+                else:
+                    body, _l = _serve(b"localhost " + raw.encode() + b" 0\r\n", cfg)
+                    body = body.partition(b"\r\n")[2]
+                if body != content:
+                    return {"confirmed": True, "scenario": "following the %s link %r advertised for the file %r does not deliver the file" % (proto, raw, fname), "response": repr(body[:120])}
         for name in ("Web", "Mail", "News", "Remote", "Finger", "Same name other port"):
             vals = {proto: seen[proto].get(name) for proto in seen}
             want = ref.get(name)
@@ -2475,3 +2612,6 @@ for _q in ("pygopherd/protocols/http.py::HTTPProtocol.renderobjinfo", "pygopherd
     REALISERS.append((_q, r_links))
 _prev_wd = find("pygopherd/protocols/base.py::BaseGopherProtocol.writedir")
 REALISERS.append(("pygopherd/protocols/base.py::BaseGopherProtocol.writedir", lambda d: (_first_confirmed(r_links, _prev_wd)(d) if d.get("kind") == "standin" else _prev_wd(d))))
+
+
+REALISERS.append(("pygopherd/server.py::GopherRequestHandler.", lambda d: (r_real_sockets(d) if d.get("kind") == "standin" else {"confirmed": None, "note": "no counter-model replay for the connection handler"})))
